@@ -327,16 +327,25 @@ def gen_op(rng, sess, case):
 
 def sensitive_now(sess, exact_formula):
     """rounding-sensitive situations that the exact model cannot be expected to reproduce"""
+    raw = sess.raw()
+    xr = sess.ev.settings.xrange
+    if xr and not exact_formula:      # a sample within rounding distance of a range boundary
+        for x in raw:
+            for b in (float(xr[0]), float(xr[1])):
+                if abs(x - b) <= 1e-9 * (1.0 + abs(x)):
+                    return "near-range-boundary"
     if sess.strategy() != "Mode":
         return None
-    raw = sess.raw()
     xs = [Fraction(x) for x in raw]
     conf = sess.ev.settings.confidence
     conf_model = Fraction(17, 25) if (isinstance(conf, float) and conf == 0.68) else Fraction(conf)
     if not mc.threshold_agrees(conf, conf_model, len(raw)):
         return "threshold"
     if raw:
-        n, _ = np.histogram(np.array(raw), bins=100)
+        try:
+            n, _ = np.histogram(np.array(raw), bins=100)
+        except ValueError:      # samples one ulp apart: numpy cannot make 100 bins (equal in exact arithmetic)
+            return "histogram-degenerate-range"
         if [int(v) for v in n] != mc.exact_hist(xs)[0]:
             return "histogram"
         if not exact_formula and mc.near_edge(xs, eps=Fraction(1, 10 ** 9)):
